@@ -692,6 +692,11 @@ def scheck(pid: str, tier: str, extra_assumptions=None, known=None) -> int:
             runs.append(sgen.random_run(rng, rng.choice([25, 50, 90, 140]), prof))
         except AssertionError:
             gen_errors += 1
+    # exhaustive small scope: every sequence over a reduced op alphabet up to a depth
+    alpha = {"C01": "groups", "C02": "groups", "C07": "groups", "C06": "deadlines"}.get(pid, "scopes")
+    depth = {"scopes": (4, 5), "groups": (4, 6), "deadlines": (4, 5)}[alpha][0 if tier == "quick" else 1]
+    ex_leaves, ex_truncated = sgen.exhaustive_small(alpha, depth, 4000 if tier == "quick" else 40000)
+    runs += ex_leaves
     cases = [w.ops for w in runs]
     expected = [w.outs for w in runs]
     model = core.run_driver(exe, cases, timeout=1500)
@@ -800,6 +805,8 @@ def scheck(pid: str, tier: str, extra_assumptions=None, known=None) -> int:
         "distinct_nontrivial": len(nontrivial),
         "rule": f"random walk over the operations the implementation enables (profile {pid}: {PROFILES[pid]}); every step compares result + full snapshot with the extracted Coq model; non-trivial = reaches one of {INTERESTING[pid]}",
         "corpus_cases": n_corpus,
+        "exhaustive_small_scope": {"alphabet": alpha, "ops": [k for k, v in sgen.ALPHABETS[alpha].items() if v and k not in ("max_depth", "max_groups", "max_tasks", "deadline_prob", "shield_prob")],
+                                   "depth": depth, "sequences": len(ex_leaves), "complete": not ex_truncated},
         "generator_rejected": gen_errors,
         "reached": flags,
         "op_distribution": opcount,
